@@ -47,6 +47,16 @@ SetView(L, b, r, S, raw) ==
                                THEN (IF raw \/ ~Reg(L, s).reverse THEN Part(IdxOf(s)) ELSE ByteRev(Part(IdxOf(s)), sw))
                                ELSE b[s]]
 
+\* ---- a group is a view of the bits of its sub-registers and of nothing else: its declared width is the width of the (distinct) registers behind it.
+\* Generated layouts tile by construction; a layout read from a shipped device database is data and may not (then a value of the declared
+\* width has bits without a home: RegWriteWins / ReadsBack fail on it).
+RECURSIVE SumW(_, _)
+SumW(L, S) == IF S = {} THEN 0 ELSE LET s == CHOOSE x \in S : TRUE IN W(L, s) + SumW(L, S \ {s})
+Tiles(L, g) == /\ Reg(L, g).subs # <<>>
+               /\ Cardinality(ToSet(Reg(L, g).subs)) = Len(Reg(L, g).subs)
+               /\ \A s \in ToSet(Reg(L, g).subs) : W(L, s) = SubW(L, g)
+               /\ SumW(L, ToSet(Reg(L, g).subs)) = W(L, g)
+
 \* ---- bit-fields (defined on the not-raw view of their register)
 FieldMask(L, r, f) == {i \in AllBits(W(L, r)) : i >= Fld(L, r, f).off /\ i < Fld(L, r, f).off + Fld(L, r, f).width}
 Stored(L, b, r, f) == {i - Fld(L, r, f).off : i \in View(L, b, r, FALSE) \cap FieldMask(L, r, f)}
@@ -57,8 +67,9 @@ SetFieldBits(L, b, r, f, V, raw) ==                \* a bit-field write never di
   LET nv == (View(L, b, r, raw) \ FieldMask(L, r, f)) \cup {i + Fld(L, r, f).off : i \in PreProc(L, r, f, V)}
   IN SetView(L, b, r, nv, raw)
 
-\* ---- reset state
-ResetVal(L, r) == UNION {{i + Fld(L, r, f).off : i \in ToSet(Fld(L, r, f).reset)} : f \in Flds(L, r)}
+\* ---- reset state (a layout read from a shipped register file may carry a register-level reset value next to those of its bit-fields)
+RegReset(L, r) == IF "reset" \in DOMAIN Reg(L, r) THEN ToSet(Reg(L, r).reset) ELSE {}
+ResetVal(L, r) == RegReset(L, r) \cup UNION {{i + Fld(L, r, f).off : i \in ToSet(Fld(L, r, f).reset)} : f \in Flds(L, r)}
 ResetBits(L) == [r \in Leaves(L) |-> ResetVal(L, r)]
 
 \* ---- enum view: the name of the enum whose value equals the field value, else none
